@@ -88,6 +88,12 @@ impl DocumentBuilder {
         if !prefix.is_empty() && namespace_uri.is_empty() {
             return Err(ParseError::UnknownPrefix(prefix.to_string(), span));
         }
+        // the prefix xmlns cannot be declared, and nothing can be bound to
+        // its namespace name: an attribute xmlns:a="..." written for such a
+        // binding would be read back as a declaration of the prefix a
+        if prefix == "xmlns" || namespace_uri == "http://www.w3.org/2000/xmlns/" {
+            return Err(ParseError::UnknownPrefix(prefix.to_string(), span));
+        }
         let prefix_id = xot.prefix_lookup.get_id_mut(prefix);
         let namespace_id = xot.namespace_lookup.get_id_mut(namespace_uri);
         let namespaces = &mut self.element_builder.as_mut().unwrap().namespaces;
